@@ -10,6 +10,7 @@
 (*                        of this very call fail                                                *)
 (*   Call [p, op = "Delete", c, id]  /  Ret [p, op = "Delete", ok]                             *)
 (*   Call [p, op = "Update", id, st] /  Ret [p, op = "Update", ok]   st = inactive | expired   *)
+(*   Call [p, op = "List", c]       /  Ret [p, op = "List", ok]     (the client lists its mappings) *)
 (*   Call [p, op = "Lookup", host, name, sp]     a request with Host header `host`; name = the *)
 (*                        canonical domain that spelling denotes ("" if it is not a domain      *)
 (*                        name, e.g. an IPv6 literal); sp = spelling class                      *)
@@ -57,6 +58,7 @@ TrCall ==
        [] Ev.op = "Update" ->
             /\ up' = up \cup {[p |-> Ev.p, id |-> Ev.id, st |-> Ev.st, call |-> l, ret |-> 0, ok |-> FALSE]}
             /\ UNCHANGED <<cr, dl, lk>>
+       [] Ev.op = "List" -> UNCHANGED <<cr, dl, up, lk>>       \* a listing: nothing is demanded of its result
        [] OTHER ->
             /\ lk' = Put(lk, Ev.p, [host |-> Ev.host, name |-> Ev.name, sp |-> Ev.sp, call |-> l])
             /\ UNCHANGED <<cr, dl, up>>
@@ -104,7 +106,12 @@ LookupViol(q, e) ==
          IF leg[x].c # e.c THEN {V("WrongOwner", "client-mismatch:" \o q.sp)}
          ELSE IF leg[x].name # q.name THEN {V("WrongOwner", "other-name:" \o q.sp)}
          ELSE IF leg[x].del # 0 /\ leg[x].del < c0 THEN {V("RouteAfterDelete", "legacy-registry-cache")}
-         ELSE {}
+         ELSE \* the name has a repository owner (created before the lookup began, never the target of an owner delete):
+              \* the request belongs to that mapping - routed to it, or rejected if it is inactive / expired - never to the
+              \* legacy mapping of the same name
+              {V("WrongOwner", "legacy-shadows-repository-owner:" \o (IF DeactivatedBefore(t, c0) # {} THEN "inactive-or-expired" ELSE "active")
+                                 \o (IF cr[t].c = e.c THEN ":same-client" ELSE ":other-client")) :
+                 t \in {u \in DOMAIN cr : cr[u].ok /\ cr[u].name = q.name /\ cr[u].ret < c0 /\ OwnerDels(u) = {}}}
   ELSE {V("WrongOwner", "unknown-target:" \o q.sp)}
 
 \* ---- clause 3: only the owner deletes ----------------------------------------------------------
@@ -130,6 +137,7 @@ TrRet ==
             LET u == CHOOSE x \in up : x.p = Ev.p /\ x.ret = 0 IN
             /\ up' = (up \ {u}) \cup {[u EXCEPT !.ret = l, !.ok = Ev.ok]}
             /\ UNCHANGED <<viol, cr, dl, lk>>
+       [] Ev.op = "List" -> UNCHANGED <<viol, cr, dl, up, lk>>
        [] OTHER ->
             /\ viol' = viol \cup LookupViol(lk[Ev.p], Ev)
             /\ UNCHANGED <<cr, dl, up, lk>>
